@@ -14,20 +14,21 @@ from ..refs import text as R1
 
 ZONES = ["Europe/Berlin", "America/New_York", "Asia/Kolkata", "Australia/Lord_Howe", "America/Sao_Paulo", "Pacific/Apia", "Africa/Cairo",
          "Europe/London", "Asia/Tokyo", "America/Argentina/Buenos_Aires", "Europe/Dublin", "Pacific/Chatham"]
-WORDS = ["meeting", "Lunch", "x", "Café", "日本語", "naïve", "ok", "A B", "1:1", "50%", "a=b", "\U0001F600", "Österreich", "tab\there", "q'uote", "dash-ed"]
+WORDS = ["meeting", "Lunch", "x", "Café", "日本語", "naïve", "ok", "A B", "1:1", "50%", "a=b", "\U0001F600", "Österreich", "tab\there", "q'uote", "dash-ed", "zero\ufeffwidth", "\ufeffbom-first", "nb\u00a0sp", "ls\u2028ps\u2029", "c1\u0085"]
 CRIT = ["\\", "n", "N", ";", ",", ":", '"', "%", "2", "C", "\n", " ", "a", "%2C", "\\n", "\\;", "\\\\"]
 PARAM_POOL = ["LANGUAGE", "X-A", "ALTREP", "CN", "ROLE", "PARTSTAT", "X-LONG-PARAMETER-NAME", "DIR", "MEMBER", "RSVP", "FMTTYPE", "x-lower"]
 TEXT_PROPS = ["SUMMARY", "DESCRIPTION", "LOCATION", "COMMENT", "CONTACT", "X-VERIF", "X-WR-NOTE", "STATUS", "CLASS", "TRANSP"]
 
 
 class G:
-    def __init__(self, rng, hostile=0.15, custom_tz=True, unknown=True, max_depth=4, api_safe=False):
+    def __init__(self, rng, hostile=0.15, custom_tz=True, unknown=True, max_depth=4, api_safe=False, param_hostile=True):
         self.rng = rng
         self.hostile = hostile
         self.custom_tz = custom_tz and not api_safe
         self.unknown = unknown
         self.max_depth = max_depth
         self.api_safe = api_safe
+        self.param_hostile = param_hostile
         self.custom_ids = []
         self.uid = 0
 
@@ -52,7 +53,7 @@ class G:
             return ""
         if k == 1:
             return r.choice(("a,b", "x;y", "m:n", "sp ace", "q'", "ä,ö", "1=2", "^n", "(paren)"))
-        if k == 2 and r.random() < self.hostile * 2:
+        if k == 2 and self.param_hostile and r.random() < self.hostile * 2:
             return r.choice(("a\\", "\\,b", "%3A", "x\\;y", "\\\\"))
         return r.choice(("en", "CHAIR", "ACCEPTED", "mailto:a@example.com", "text/plain", "http://example.com/a?b=c", "Jane Doe", "TRUE", "x"))
 
